@@ -33,9 +33,12 @@ META["text"] += ' (R8 = C06.R4) a pair is kept on the strength of the CVR listin
 META["text"] += ' R1 also: the per-contest count of real records is stored unconditionally at every call.'
 META["text"] += ' R4 also: the scoring functions keep no state between calls.'
 META["text"] += ' R6 also: Contest.cards and Contest.id are stored as given (an unspecified card bound stays None).'
+META["text"] += " (R10, N, frame condition on arguments) phantoms are appended to a new list; the caller's list and records are not edited beyond the counts recorded on the contests: every function in scope changes the objects it is handed only in the ways confirmed for it (aud.ARG_EFFECTS); references are followed through aliases, elements, attributes, loop variables, .get/.items/.values and np.asarray, resolved by the bindings that reach the use."
 
 
 def run(chk):
+    from .. import aud as _aud8
+    _aud8.argument_effects(chk, 'C08.R10', 'shangrla/core/Audit.py', "phantoms are appended to a new list; the caller's list and records are not edited beyond the counts recorded on the contests", only=lambda q: q.startswith('CVR.'))
     chk.explain(
         "R1 per-contest / per-stratum accounting by loop form; R2 originals first and untouched; R3 fresh, flagged, unique "
         "phantoms; R4 worst-case scoring from the overstatement table and dB/d(mvr side) > 0; R5 phantom MVRs for sampled "
